@@ -351,56 +351,74 @@ func TestC10Syscalls(t *testing.T) {
 			t.Fatalf("VERIF-UNDECIDED calibration found only %d calls on the Spec directory: %v", len(targets), window)
 		}
 		rec.Add("calibrations", 1)
-		modes := []string{"signal=SIGKILL", "error=ENOSPC", "error=EIO", "error=EACCES", "error=EMFILE"}
+		modes := []string{"signal=SIGKILL", "error=ENOSPC", "error=EIO", "error=EACCES", "error=EPERM", "error=EMFILE"}
 		for k, ev := range targets {
 			for _, mode := range modes {
 				if ev.name == "newfstatat" && mode != "signal=SIGKILL" && mode != "error=EACCES" {
 					continue
 				}
-				s := c10Prepare(t, root, initial, target, oldSpec)
-				s.newImage = specImage(newSpec)
-				inject := fmt.Sprintf("%s:when=%d:%s", ev.name, ev.ordinal, mode)
-				out, _ := tl.run(logPath, inject, "write", s.dir, target, specFile)
-				w2, _, injectedAt, killed, perr := parseStrace(logPath)
-				// did the fault land on the intended call?
-				landed := perr == nil
-				if mode == "signal=SIGKILL" {
-					landed = landed && killed && len(w2) > 0 && w2[len(w2)-1].name == ev.name && w2[len(w2)-1].ordinal == ev.ordinal && len(w2) == indexInWindow(window, ev)+1
-				} else {
-					landed = landed && !killed && injectedAt >= 0 && w2[injectedAt].name == ev.name && w2[injectedAt].ordinal == ev.ordinal
+				// a second fault in the same run for refused opens on a directory that holds a previous file: the size
+				// limit of the writer is 7 bytes, so that whatever it writes after the refusal is cut short
+				cuts := []int{-1}
+				if ev.name == "openat" && strings.HasPrefix(mode, "error=") && strings.HasPrefix(initial, "old-file") {
+					cuts = []int{-1, 7}
 				}
-				if !landed {
-					rec.Excluded("fault-did-not-land-on-the-intended-call")
-					continue
-				}
-				c := base
-				c.Mode, c.Call = mode, fmt.Sprintf("#%d %s", k, clip(ev.text, 120))
-				msg, st := c10Observe(s)
-				var res struct{ Err string }
-				_ = json.Unmarshal(bytes.TrimSpace(out), &res)
-				switch {
-				case killed:
-					c.Result = "killed; directory holds " + st
-				case res.Err != "":
-					c.Result = "WriteSpec failed; directory holds " + st
-				default:
-					c.Result = "WriteSpec succeeded; directory holds " + st
-					if msg == "" && st != "new" {
-						msg = "WriteSpec reported success but the directory does not hold the new Spec"
+				for _, cut := range cuts {
+					s := c10Prepare(t, root, initial, target, oldSpec)
+					s.newImage = specImage(newSpec)
+					inject := fmt.Sprintf("%s:when=%d:%s", ev.name, ev.ordinal, mode)
+					args := []string{"write", s.dir, target, specFile}
+					if cut >= 0 {
+						args = []string{"write", "--fsize", fmt.Sprint(cut), s.dir, target, specFile}
 					}
+					out, _ := tl.run(logPath, inject, args...)
+					w2, _, injectedAt, killed, perr := parseStrace(logPath)
+					// did the fault land on the intended call?
+					landed := perr == nil
+					if mode == "signal=SIGKILL" {
+						landed = landed && killed && len(w2) > 0 && w2[len(w2)-1].name == ev.name && w2[len(w2)-1].ordinal == ev.ordinal && len(w2) == indexInWindow(window, ev)+1
+					} else {
+						landed = landed && !killed && injectedAt >= 0 && w2[injectedAt].name == ev.name && w2[injectedAt].ordinal == ev.ordinal
+					}
+					if !landed {
+						rec.Excluded("fault-did-not-land-on-the-intended-call")
+						continue
+					}
+					c := base
+					c.Mode, c.Call = mode, fmt.Sprintf("#%d %s", k, clip(ev.text, 120))
+					if cut >= 0 {
+						c.Mode += fmt.Sprintf(" and the writer's file size limit is %d bytes", cut)
+					}
+					msg, st := c10Observe(s)
+					var res struct{ Err string }
+					_ = json.Unmarshal(bytes.TrimSpace(out), &res)
+					switch {
+					case killed:
+						c.Result = "killed; directory holds " + st
+					case res.Err != "":
+						c.Result = "WriteSpec failed; directory holds " + st
+					default:
+						c.Result = "WriteSpec succeeded; directory holds " + st
+						if msg == "" && st != "new" {
+							msg = "WriteSpec reported success but the directory does not hold the new Spec"
+						}
+					}
+					if msg == "" && (killed || res.Err != "") {
+						msg = tl.followUp(root, s)
+					}
+					if msg != "" {
+						t.Fatalf("C10 violated: %s\nfault: %s on call %s\ninitial state: %s, encoding %s\nSpec: %s", msg, mode, c.Call, initial, enc, clip(specImage(newSpec), 1500))
+					}
+					between := len(dirChanging) > 0 && k > dirChanging[0] && k <= dirChanging[len(dirChanging)-1]
+					labels := []string{"mode:" + mode, "call:" + ev.name, "initial:" + initial, "enc:" + enc, "holds:" + st}
+					if killed {
+						labels = append(labels, "writer-killed")
+					}
+					if cut >= 0 {
+						labels = append(labels, "refused-open-and-size-limit")
+					}
+					rec.Case(between && strings.HasPrefix(initial, "old-file"), canonJSON(c), func() any { return c }, labels...)
 				}
-				if msg == "" && (killed || res.Err != "") {
-					msg = tl.followUp(root, s)
-				}
-				if msg != "" {
-					t.Fatalf("C10 violated: %s\nfault: %s on call %s\ninitial state: %s, encoding %s\nSpec: %s", msg, mode, c.Call, initial, enc, clip(specImage(newSpec), 1500))
-				}
-				between := len(dirChanging) > 0 && k > dirChanging[0] && k <= dirChanging[len(dirChanging)-1]
-				labels := []string{"mode:" + mode, "call:" + ev.name, "initial:" + initial, "enc:" + enc, "holds:" + st}
-				if killed {
-					labels = append(labels, "writer-killed")
-				}
-				rec.Case(between && strings.HasPrefix(initial, "old-file"), canonJSON(c), func() any { return c }, labels...)
 			}
 		}
 	})
